@@ -312,6 +312,7 @@ func (r *run) genBatch(hp *histPlan, i int) *batchIn {
 		g.Uniq = &hp.uniq
 		g.UniqPct = []int{100, 50, 10}[t.Draw(core.Gen, 3)]
 		g.MaxItems = 6000 + 3000*t.Draw(core.Gen, 4)
+		g.Budget = 40000
 	case t.Chance(core.Gen, 1, 10):
 		b.kind = "empty"
 		g.MaxItems = -1
